@@ -77,7 +77,7 @@ GATE = {
     "lstsq": {"kappa": 1e7, "kpar": 1e7, "cond": 1e10},
     "pinv": {"kappa": 1e7, "kpar": 1e7, "cond": 1e10},
     "inv": {"condn": 1e2},
-    "cnls": {"kappa": 1e4, "kpar": 1e3, "cond": 1e8},
+    "cnls": {"kappan": 1e4, "kparn": 1e3, "condn": 1e4},
 }
 
 LINEAR_TESTS = km.TESTS[:6]
@@ -121,7 +121,17 @@ def gen_instance(rng, cell, tier):
     nmax_pts = 60 if cn else (160 if thorough else 110)
     N = max(min(int(round(ppd * dec)) + 1, nmax_pts), 7)
     dec = (N - 1) / ppd
-    if rng.random() < 0.7:
+    if cn:
+        # cnls starts from C=1e-6 F, L=1e-3 H: window in which such elements are visible next to R ~ 1 ohm
+        # (series C: 1/(wC) ~ R above ~1e4 Hz; series L: wL ~ R below ~1e3 Hz; both: around the LC resonance, 5 kHz)
+        lo_rng, dmax = (0.5, 3.0), 5.0
+        if not adm:
+            lo_rng, dmax = {(True, False): ((3.0, 4.5), 4.0), (False, True): ((0.5, 2.0), 3.0), (True, True): ((2.5, 3.3), 2.5)}.get((add_c, add_l), ((0.5, 3.0), 5.0))
+        dec = min(dec, dmax)
+        N = max(min(int(round(ppd * dec)) + 1, nmax_pts), 7)
+        dec = (N - 1) / ppd
+        lo = float(rng.uniform(*lo_rng))
+    elif rng.random() < 0.7:
         lo = float(rng.uniform(-4.0, 1.0))  # usual laboratory window
     else:
         lo = float(rng.uniform(-7.0, 12.0 - dec))
@@ -220,6 +230,12 @@ def observe(inst):
             num_F_ext_evaluations=0, num_procs=1,
         )
     return res
+
+
+def _gate_of(inst):
+    f = np.sort(np.array(inst["f"], dtype=float))[::-1]
+    tau = km.taus(f, int(inst["num_RC"]), float(inst["log_F_ext"]))
+    return km.gate_stats(f, tau, np.array(inst["var"], dtype=float), inst["test"], bool(inst["adm"]), bool(inst["add_c"]), bool(inst["add_l"]))
 
 
 def check_instance(inst):
@@ -373,6 +389,14 @@ def run_case(case):
 
     for cell in todo:
         inst = gen_instance(rng, tuple(cell), tier)
+        if case["kind"] == "cnls":
+            # cnls costs ~1 s per call: the precondition is applied in the generator (redraw until the harness's own
+            # statistics put the instance inside the gate; the library is not consulted)
+            for _ in range(40):
+                if in_gate(inst["test"], _gate_of(inst)):
+                    break
+                cnt("cnls_redraw")
+                inst = gen_instance(rng, tuple(cell), tier)
         out = check_instance(inst)
         cname = out["cell"]
         tname = f"{inst['test']}/{'Y' if inst['adm'] else 'Z'}"
